@@ -3,7 +3,7 @@ CONSTANTS
   MaxMsgs = 3
   MaxIds = 3
   MaxK = 3
-  MaxQueue = 3
+  MaxQueue = 2
 INIT GenInit
 NEXT GenNext
 CONSTRAINT Bounded
